@@ -95,7 +95,8 @@ Proof.
   change (adjust_one o (sp_age s) (adj_debt o s) (zlen (sp_orgs s))) with (adjusted o s) in H.
   fold (num_parents o (zlen (sp_orgs s))) in H.
   remember (sort_desc org_lt (map (adjusted o s) orgs)) as sorted eqn:Es.
-  destruct sorted as [|top r]; [discriminate|]. injection H as <- <-.
+  destruct sorted as [|top r]; [discriminate|].
+  destruct (Z.ltb (num_parents o (zlen (sp_orgs s))) 0); [discriminate|]. injection H as <- <-.
   pose proof (sort_desc_perm org_lt (map (adjusted o s) orgs)) as Hperm. rewrite <- Es in Hperm.
   assert (Hnp' : Z.geb 0 (num_parents o (zlen (sp_orgs s))) = false) by (destruct (Z.geb_spec 0 (num_parents o (zlen (sp_orgs s)))); [lia|reflexivity]).
   cbn [mark_elim]. rewrite Hnp'.
